@@ -77,6 +77,47 @@ theorem Builder.new_valid {c cap : Nat} {w : Int} {b : Builder} (h : Builder.new
   exact ⟨h1, h2, h3, (by decide : 0 < 32), (by decide : 0 < 64), (by decide : 0 < 32768), (by decide : 1 < 256),
     isPow2_256⟩
 
+/-! #### the same with the defaults as a parameter (the correspondence reads them from the running crate) -/
+
+theorem Builder.new_eq_newWith_crate (c cap : Nat) (w : Int) :
+    Builder.new c cap w = Builder.newWith Defaults.crate c cap w := by
+  unfold Builder.new Builder.newWith Defaults.crate
+  split <;> rfl
+
+theorem Defaults.ok_iff (d : Defaults) :
+    d.ok = true ↔ (0 < d.pool ∧ 0 < d.buf ∧ 0 < d.cmd ∧ 1 < d.shards ∧ isPow2 d.shards = true) := by
+  unfold Defaults.ok
+  simp only [Bool.and_eq_true, decide_eq_true_eq, gt_iff_lt]
+  constructor
+  · rintro ⟨⟨⟨⟨h1, h2⟩, h3⟩, h4⟩, h5⟩; exact ⟨h1, h2, h3, h4, h5⟩
+  · rintro ⟨h1, h2, h3, h4, h5⟩; exact ⟨⟨⟨⟨h1, h2⟩, h3⟩, h4⟩, h5⟩
+
+theorem Builder.newWith_isSome_iff (d : Defaults) (c cap : Nat) (w : Int) :
+    (Builder.newWith d c cap w).isSome = true ↔ (0 < c ∧ 0 < cap ∧ 0 < w) := by
+  unfold Builder.newWith
+  split <;> simp_all
+
+theorem Builder.newWith_eq_some {d : Defaults} {c cap : Nat} {w : Int} {b : Builder}
+    (h : Builder.newWith d c cap w = some b) :
+    (0 < c ∧ 0 < cap ∧ 0 < w) ∧
+    b = { counters := c, capacity := cap, cacheWeight := w, pool := d.pool, buf := d.buf, cmd := d.cmd,
+          shards := d.shards, tickNs := d.tickNs } := by
+  unfold Builder.newWith at h
+  split at h
+  · rename_i hc
+    simp only [Option.some.injEq] at h
+    exact ⟨hc, h.symm⟩
+  · cases h
+
+/-- acceptable defaults make every freshly created builder valid -/
+theorem Builder.newWith_valid {d : Defaults} {c cap : Nat} {w : Int} {b : Builder} (hd : d.ok = true)
+    (h : Builder.newWith d c cap w = some b) : b.Valid := by
+  obtain ⟨⟨h1, h2, h3⟩, rfl⟩ := Builder.newWith_eq_some h
+  obtain ⟨p1, p2, p3, p4, p5⟩ := (Defaults.ok_iff d).mp hd
+  exact ⟨h1, h2, h3, p1, p2, p3, p4, p5⟩
+
+theorem Defaults.crate_ok : Defaults.crate.ok = true := by decide
+
 theorem Builder.set_isSome_iff (b : Builder) (c : Setter) :
     (b.set c).isSome = true ↔
       (match c with
